@@ -20,6 +20,9 @@ THEOREMS = [
     "convert_trajectory_h_zero",
     "convert_step_partial",
     "convert_diag_sweeps_agree",
+    "convert_trajectory_heatbath_partial",
+    "convert_cluster_gate_gamma_zero",
+    "witnessMoves_heatPad",
     "witnessMoves_lawful",
     "witness_gate_off",
     "witness_diverges",
@@ -33,7 +36,10 @@ RULE = ("random TFIM graphs (2..6 spins; chain with optional ring/chord/repeated
         "cutoff, state, operator string compared. `lockstep`: timestep on the Ising sampler and on its conversion from the same "
         "SplitMix64 state for 20 steps; the model decides whether the observation is allowed, the oracle demands identical "
         "states/ops/n/cutoff and energy difference N*Gamma (h = 0 cases and one recorded h != 0 witness = finding F4). "
-        "Non-trivial = every convert case, every lockstep case with steps; distinct = distinct case line.")
+        "Further lock-step families with the same oracle: `lockstep-hb` heat-bath sweeps on BOTH samplers (set_enable_heatbath on the "
+        "Ising sampler, set_do_heatbath by hand on its conversion; initial cutoff 1..3 so the cutoff has to grow after the conversion; "
+        "conversion before any step and after k steps) and `lockstep-g0` transverse field exactly 0 with |J| >= 1, beta 2 or 4 "
+        "(operators present). Non-trivial = every convert case, every lockstep case with steps; distinct = distinct case line.")
 
 
 def main(ck):
@@ -49,6 +55,7 @@ def main(ck):
         ck.oblige("input distribution: h = 0 lock-step runs exist (%s, %s identical)" % (hz, hzs), isinstance(hz, int) and hz > 0, "no h = 0 lock-step run")
         ck.notes.append("h != 0 lock-step runs: %s of %s identical (finding F4; judged only on the recorded witness input)" % (ck.stats.get("lockstep_h_nonzero_same"), ck.stats.get("lockstep_h_nonzero_runs")))
         ck.notes.append("heat-bath option set before conversion: %s of %s lock-step runs identical (into_qmc does not carry the option; outside the property's quantifier, recorded as a note)" % (ck.stats.get("lockstep_heatbath_option_same"), ck.stats.get("lockstep_heatbath_option_runs")))
+        ck.notes.append("heat-bath on both samplers: %s of %s lock-step runs identical; Gamma = 0: %s of %s identical (both judged by the oracle)" % (ck.stats.get("lockstep_heatbath_both_same"), ck.stats.get("lockstep_heatbath_both_runs"), ck.stats.get("lockstep_gamma_zero_same"), ck.stats.get("lockstep_gamma_zero_runs")))
         ck.notes.append("Gamma < 0: " + str(ck.stats.get("note_gamma_negative")))
     ck.assumptions.append("Gamma >= 0 (constructor domain of make_interaction; with Gamma < 0 the Ising sampler's own timestep panics in gen_bool)")
     ck.assumptions.append("trajectory theorem: h = 0 (|h| <= eps), RVB and heat-bath options off; it is a statement about the composition of the two timesteps out of shared update routines (Moves/Lawful), tied to the real code by the lock-step runs")
